@@ -1,6 +1,7 @@
 package main
 
 import (
+	"encoding/json"
 	"bytes"
 	"context"
 	"fmt"
@@ -101,12 +102,76 @@ func rootOf(doc []byte, hs HSpec, loader *mapLoader, ownTree bool) (string, erro
 	return mz.Root().BigInt().String(), nil
 }
 
+// two top-level nodes of one type in a @graph array: their fields share paths, so the document has no faithful tree.
+// It may be rejected; if it is merklized all the same, the converse half of C03 still applies - changing the value
+// of any single field of either node must change the root.
+func emitC03Collision(out *Out, r *Rng, muts int) {
+	g := NewDocGen(r, 1+r.Intn(2))
+	a := g.node(g.sch.Root, 0, true)
+	b := g.node(g.sch.Root, 0, true)
+	hs := hPoseidon()
+	loader := &mapLoader{docs: map[string][]byte{g.sch.URL: g.ContextDoc()}}
+	render := func() []byte {
+		p := plainPresentation(r)
+		p.ctxMode = 1
+		var ja, jb map[string]any
+		if json.Unmarshal(g.Render(a, p), &ja) != nil || json.Unmarshal(g.Render(b, p), &jb) != nil {
+			return nil
+		}
+		ctx := ja["@context"]
+		delete(ja, "@context")
+		delete(jb, "@context")
+		doc, _ := json.Marshal(map[string]any{"@context": ctx, "@graph": []any{ja, jb}})
+		return doc
+	}
+	doc0 := render()
+	if doc0 == nil {
+		return
+	}
+	c := Case{Op: "none", In: J{"doc": string(doc0)}, Tags: []string{"shape:colliding-top-level-nodes"}, NT: true}
+	root0, err := rootOf(doc0, hs, loader, true)
+	if err != nil {
+		c.Impl = J{"rejected": true}
+		c.Tags = append(c.Tags, "rejected")
+		c.Prop = &PropRes{OK: true}
+		out.Emit(c)
+		return
+	}
+	var why []string
+	var lits []*ALit
+	collectLits(a, &lits)
+	collectLits(b, &lits)
+	nm := 0
+	for _, li := range r.Perm(len(lits)) {
+		if nm >= muts {
+			break
+		}
+		undo, ok := mutateLit(lits[li], r)
+		if ok {
+			nm++
+			if doc := render(); doc != nil {
+				if rt, err := rootOf(doc, hs, loader, true); err == nil && rt == root0 {
+					why = append(why, fmt.Sprintf("a document with two top-level nodes was merklized, and its root is unchanged after changing one field to %q; doc=%s", lits[li].Canon, trunc(string(doc), 500)))
+				}
+			}
+		}
+		undo()
+	}
+	c.Impl = J{"ok": root0}
+	c.Tags = append(c.Tags, "accepted")
+	c.Prop = propOf(why)
+	out.Emit(c)
+}
+
 func genC03(out *Out, r *Rng, tier string, n int, shard int) {
 	k, kx, reps, muts := 6, 3, 3, 6
 	if tier == "thorough" {
 		k, kx, reps, muts = 16, 6, 8, 20
 	}
 	for i := 0; i < n; i++ {
+		if i%5 == 2 {
+			emitC03Collision(out, r, muts)
+		}
 		g := NewDocGen(r, 1+r.Intn(3))
 		g.nativeInStr = true
 		root := g.node(g.sch.Root, 0, r.Bool())
